@@ -62,10 +62,10 @@ Qed.
 Section WithCls.
 Variable cls : N -> N.
 
-Lemma tokenize_tok_text lenient t : tok_text t = true ->
+Lemma tokenize_tok_text lenient t : tok_text t = true -> nonblank_head t = true ->
   tokenize cls lenient (lines_of t) = run cls lenient (S (length t)) (mkLS t None 0 1 1 [] [] [] []).
 Proof.
-  intros H. unfold tok_text in H. apply andb_true_iff in H as [H1 H2]. apply negb_true_iff in H2.
+  intros H Hn. unfold tok_text in H. apply andb_true_iff in H as [H1 H2]. apply negb_true_iff in H2.
   apply tokenize_plain; assumption.
 Qed.
 
